@@ -28,7 +28,7 @@ DEADLINE = {"quick": 60, "thorough": 600}
 REQUIRED = {
     "visit:pre": 100, "visit:in": 100, "visit:post": 100, "visit:pre:stopped": 50, "visit:in:stopped": 50,
     "visit:post:stopped": 50, "visit:nested": 500, "query:find_id:hit": 20, "query:find_id:miss": 5, "query:get_sibling": 50,
-    "query:get_root_side": 50, "query:find_type": 20, "shape:one-child": 10, "mutation-histories": 50, "mutation:move": 50, "mutation:wrap": 50,
+    "query:get_root_side": 50, "query:find_type": 20, "shape:one-child": 10, "mutation-histories": 50, "mutation:move": 50, "mutation:wrap": 50, "mutation:replaced-node-queried": 50,
 }
 
 
@@ -187,7 +187,7 @@ def mutation_history(rec, rng, fac, kn, steps=12):
     for t in trees:
         query_all(t, rng, kn == "expr")
     for _ in range(steps):
-        op = rng.choice(["rotate", "rotate", "rotate", "move", "wrap", "swap", "swap", "detach"])
+        op = rng.choice(["rotate", "rotate", "rotate", "move", "wrap", "swap", "swap", "detach", "replace", "replace"])
         a = rng.choice(trees)
         try:
             nodes = S.nodes_preorder(a)
@@ -213,6 +213,21 @@ def mutation_history(rec, rng, fac, kn, steps=12):
                 l, r = n.left, n.right
                 n.set_left(r)
                 n.set_right(l)
+            elif op == "replace" and n.parent is not None:
+                # the ordinary way to replace a child: set_left/set_right with the default
+                # clear_old_child_parent=False leaves the OLD child with a parent pointer to a node
+                # that no longer holds it; the replaced node is then asked for its sibling
+                par = n.parent
+                new = fac(None, None, 77)
+                if par.left is n:
+                    par.set_left(new)
+                else:
+                    par.set_right(new)
+                rec.arm("mutation:replaced-node-queried")
+                n.get_sibling()
+                new.get_sibling()
+                n.get_children()
+                n.is_leaf()
             elif op == "detach" and n.parent is not None:
                 if n.parent.left is n:
                     n.parent.set_left(None, clear_old_child_parent=True)
@@ -297,3 +312,11 @@ def replay(rec, cfg, w):
     s = W9.parse_shape(w["shape"])
     for kn, f in factories().items():
         drive_tree(rec, W9.build(s, f), kn, cfg.rng("replay"), full_stops=True)
+    if w.get("node_path") == "?":
+        # the queried node was outside every tree (a replaced child with a stale parent pointer):
+        # such nodes only arise in mutation histories
+        rng = cfg.rng("replay-histories")
+        fac = factories()
+        for i in range(300):
+            kn = rng.choice(["raw", "expr"])
+            mutation_history(rec, rng, fac[kn], kn, steps=rng.randint(4, 16))
